@@ -8,12 +8,14 @@ import (
 	"context"
 	"fmt"
 	aftpb "github.com/openconfig/gribi/v1/proto/gribi_aft"
+	"github.com/openconfig/gribigo/server"
 	"sort"
 	"strings"
 	"sync"
 	"sync/atomic"
 	"time"
 	"verif/harness/ribhist"
+	"verif/wire"
 
 	"github.com/openconfig/gribigo/rib"
 	"github.com/openconfig/gribigo/rib/reconciler"
@@ -154,6 +156,11 @@ func build(es []*ent, nis ...string) (*rib.RIB, error) {
 			}
 		}
 	}
+	return r, fill(r, es)
+}
+
+// fill installs the entries (references first) into r.
+func fill(r *rib.RIB, es []*ent) error {
 	id := uint64(0)
 	for _, want := range []ribx.Kind{ribx.NH, ribx.NHG, ribx.V4, ribx.V6, ribx.MPLS} {
 		for _, e := range es {
@@ -165,11 +172,11 @@ func build(es []*ent, nis ...string) (*rib.RIB, error) {
 			op.Id = id
 			oks, fails, err := r.AddEntry(e.ni, op)
 			if err != nil || len(fails) > 0 || len(oks) == 0 {
-				return nil, fmt.Errorf("cannot build catalogue RIB: %s not installed (%v %v)", ribx.Text(op), err, fails)
+				return fmt.Errorf("cannot build catalogue RIB: %s not installed (%v %v)", ribx.Text(op), err, fails)
 			}
 		}
 	}
-	return r, nil
+	return nil
 }
 
 // tonly variants of the target-only network instance.
@@ -185,6 +192,10 @@ var tonly = []struct {
 
 type fail struct{ sig, what string }
 
+// remoteTarget makes the cases run against reconciler.RemoteRIB: the target RIB lives in a real server and the
+// reconciler learns its contents through the gRIBI Get RPC (in-memory transport) and rib.FromGetResponses.
+var remoteTarget bool
+
 func one(u []slot, in, tg state, tv int, base uint64) (string, []fail) {
 	var out []fail
 	bad := func(sig, format string, a ...any) { out = append(out, fail{sig, fmt.Sprintf(format, a...)}) }
@@ -196,13 +207,34 @@ func one(u []slot, in, tg state, tv int, base uint64) (string, []fail) {
 	if tonly[tv].has {
 		tnis = append(tnis, T)
 	}
-	target, err := build(append(tg.entries(u), tonly[tv].es...), tnis...)
-	if err != nil {
-		return "engine", []fail{{"engine/build", err.Error()}}
+	var target *rib.RIB
+	var tt reconciler.RIBTarget
+	if remoteTarget {
+		srv, err := server.New(server.WithVRFs(tnis[1:]))
+		if err != nil {
+			return "engine", []fail{{"engine/server", err.Error()}}
+		}
+		target = srv.VerifRIB()
+		if err := fill(target, append(tg.entries(u), tonly[tv].es...)); err != nil {
+			return "engine", []fail{{"engine/build", err.Error()}}
+		}
+		rr, err := reconciler.NewRemoteRIBWithStub(D, wire.New(srv))
+		if err != nil {
+			return "engine", []fail{{"engine/remote", err.Error()}}
+		}
+		defer rr.CleanUp()
+		tt = rr
+	} else {
+		var err error
+		target, err = build(append(tg.entries(u), tonly[tv].es...), tnis...)
+		if err != nil {
+			return "engine", []fail{{"engine/build", err.Error()}}
+		}
+		tt = reconciler.NewLocalRIB(target)
 	}
 	id := &atomic.Uint64{}
 	id.Store(base)
-	rops, err := reconciler.New(reconciler.NewLocalRIB(intended), reconciler.NewLocalRIB(target)).Reconcile(context.Background(), id)
+	rops, err := reconciler.New(reconciler.NewLocalRIB(intended), tt).Reconcile(context.Background(), id)
 	if err != nil {
 		bad("C15/reconcile-error", "Reconcile failed: %v", err)
 		return "error", out
@@ -220,6 +252,18 @@ func one(u []slot, in, tg state, tv int, base uint64) (string, []fail) {
 	seq = append(seq, rops.Delete.NHG...)
 	seq = append(seq, rops.Delete.NH...)
 	equal := want.Canon() == before.Canon()
+	if rops.IsEmpty() != (len(seq) == 0) {
+		bad("C15/is-empty-disagrees-with-operations", "%s: ReconcileOps.IsEmpty() = %v but %d operations were generated", name, rops.IsEmpty(), len(seq))
+	}
+	if cp := rops.DeepCopy(); cp != nil {
+		n := 0
+		for _, o := range []*reconciler.Ops{cp.Add, cp.Replace, cp.Delete} {
+			n += len(o.NH) + len(o.NHG) + len(o.TopLevel)
+		}
+		if n != len(seq) {
+			bad("C15/deep-copy-differs", "%s: DeepCopy() carries %d operations, the original %d", name, n, len(seq))
+		}
+	}
 	if equal && len(seq) > 0 {
 		bad("C15/operations-for-equal-ribs", "%s: the RIBs are equal but %d operations were generated (first: %s)", name, len(seq), ribx.Text(seq[0]))
 	}
@@ -278,7 +322,12 @@ func Run(rep *report.Report, tier string) {
 	// the small universe first: what it does not use of its share of the budget is left to the large one
 	end := ribhist.Budget(tier, 150*time.Second, 25*time.Minute)
 	rep.Set("exhaustive", true)
-	runUniverse(rep, tier, "entry-kinds", kindsUniverse(), outcomes, tot, time.Now().Add(time.Until(end)/2))
+	runUniverse(rep, tier, "entry-kinds", kindsUniverse(), outcomes, tot, time.Now().Add(time.Until(end)/3))
+	// the same pairs with the target behind the gRIBI API: reconciler.RemoteRIB reads it with a Get RPC (real server,
+	// in-memory transport) and rebuilds it with rib.FromGetResponses before diffing
+	remoteTarget = true
+	runUniverse(rep, tier, "entry-kinds/remote-target", kindsUniverse(), outcomes, tot, time.Now().Add(time.Until(end)/2))
+	remoteTarget = false
 	runUniverse(rep, tier, "main", universe(tier == "thorough"), outcomes, tot, end)
 	rep.Set("catalogue_states", tot["cat"])
 	rep.Set("evaluations", tot["jobs"])
@@ -322,6 +371,11 @@ func runUniverse(rep *report.Report, tier, uname string, u []slot, outcomes map[
 		jobs  []job
 	}
 	passes := []pass{{0, all}, {1, all}}
+	if remoteTarget && tier != "thorough" {
+		// (what the remote target adds is the Get / FromGetResponses round trip of the target's contents, which does
+		// not depend on the map order of the diff: one order in the quick tier)
+		passes = []pass{{0, all}}
+	}
 	if tier == "thorough" {
 		for _, o := range rt.MapOrders(true)[2:] {
 			passes = append(passes, pass{o, core})
